@@ -81,10 +81,22 @@ def history_logs(rng):
         def res_c(root, ctx, info):
             cur["rec"].emit(e="res", p="/".join(map(str, info.path)))
             return 3
-        schema = build_schema("type Query { a: A, b: Int } type A { c: Int }")
+        def res_default(root, ctx, info):
+            cur["rec"].emit(e="res", p="/".join(map(str, info.path)))
+            return 4
+
+        def res_g(root, ctx, info, x):
+            cur["rec"].emit(e="res", p="/".join(map(str, info.path)))
+            return x
+        # A.d has no resolver of its own: it is served by the TYPE-LEVEL default resolver of A and still goes through every middleware;
+        # Query.g receives an explicit null through a nullable variable for `x: Int! = 3`: argument coercion fails at execution time,
+        # the field hooks still come in pairs and neither middleware nor resolver runs
+        schema = build_schema("type Query { a: A, b: Int, g(x: Int! = 3): Int } type A { c: Int, d: Int }")
         schema.query_type.field_map["a"].resolver = res_a
         schema.query_type.field_map["b"].resolver = res_b
+        schema.query_type.field_map["g"].resolver = res_g
         schema.get_type("A").field_map["c"].resolver = res_c
+        schema.register_default_resolver("A", res_default)
         loop = None
         if cfgname == "pool":
             rt = ThreadPoolRuntime(max_workers=1)
@@ -99,8 +111,8 @@ def history_logs(rng):
             for k, (ni, nm) in enumerate(stacks):
                 rec = schedreplay.Recorder(ni, nm)
                 cur["rec"] = rec
-                kw = {"instrumentation": rec.instrumentation(), "middlewares": rec.middlewares()}
-                q = "{ a { c } b }"
+                kw = {"instrumentation": rec.instrumentation(), "middlewares": rec.middlewares(), "variables": {"nv": None}}
+                q = "query ($nv: Int) { a { c d } b g(x: $nv) }"
                 exc = None
                 try:
                     if cfgname == "blocking-optimised":
